@@ -88,6 +88,8 @@ def main():
     grab("bloomKMin", fl, r"if k < (\d+) \{\s*k = \d+;")
     grab("bloomKMax", fl, r"else if k > (\d+) \{\s*k = \d+;")
     grab("bloomMinBits", fl, r"if filter_bits < (\d+) \{")
+    # key_may_match: filters whose probe-count byte exceeds this are treated as "may match" (reserved encodings)
+    grab("bloomReaderKMax", fl, r"if k > (\d+) \{\s*return true;")
     # width of the integer type in which the number of filter bits is computed (fix D19: u64; before: u32)
     ww = re.search(r"let adj_filter_bits = filter\.len\(\) as u(\d+) \* 8;", fl) or re.search(r"let adj_filter_bits = \(filter\.len\(\) \* 8\) as u(\d+);", fl)
     rw = re.search(r"let bits = \(filter\.len\(\) - 1\) as u(\d+) \* 8;", fl)
@@ -144,7 +146,7 @@ def main():
     for k in ["footerLength", "fullFooterLength", "tableBlockCompressLen", "tableBlockCksumLen", "maskDelta",
               "maskShr", "maskShl", "unmaskShr", "unmaskShl", "filterBaseLog2", "bloomSeed", "bloomM", "bloomR",
               "bloomMidShift", "bloomDeltaShr", "bloomDeltaShl", "bloomKNum", "bloomKMin", "bloomKMax",
-              "bloomMinBits", "bloomBitsWidth", "snappyMaxExpansion", "compressionNone", "compressionSnappy", "defaultBlockSize",
+              "bloomMinBits", "bloomReaderKMax", "bloomBitsWidth", "snappyMaxExpansion", "compressionNone", "compressionSnappy", "defaultBlockSize",
               "defaultRestartInterval", "defaultBitsPerKey"]:
         if k in found:
             L.append(f"def {k} : Nat := {found[k]}")
